@@ -163,6 +163,12 @@ pub enum Unit {
     Minute,
     Hour,
     Day,
+    /// plain (unmodulated) only
+    Week,
+    /// plain only; the result must stay inside the table year
+    Month,
+    /// plain only
+    Year,
 }
 
 fn unit_secs(u: Unit) -> i64 {
@@ -171,6 +177,46 @@ fn unit_secs(u: Unit) -> i64 {
         Unit::Minute => 60,
         Unit::Hour => 3600,
         Unit::Day => 86400,
+        // calendar units: handled by start_of_unit / expected_local
+        Unit::Week => 7 * 86400,
+        Unit::Month | Unit::Year => 0,
+    }
+}
+
+/// cumulative days before each month of the table year (index 12 = length of the year)
+fn cum_days(z: &Zone) -> [i64; 13] {
+    if z.year_len == 366 {
+        [0, 31, 60, 91, 121, 152, 182, 213, 244, 274, 305, 335, 366]
+    } else {
+        [0, 31, 59, 90, 120, 151, 181, 212, 243, 273, 304, 334, 365]
+    }
+}
+
+/// month index 0..11 of the local day-of-year `ord0`
+fn month0_of(z: &Zone, ord0: i64) -> usize {
+    let c = cum_days(z);
+    let mut m = 0;
+    while m < 11 && ord0 >= c[m + 1] {
+        m += 1;
+    }
+    m
+}
+
+/// local wall-clock second at which the current unit started
+fn start_of_unit(z: &Zone, l: i64, u: Unit) -> i64 {
+    let day = l.div_euclid(86400);
+    match u {
+        Unit::Week => {
+            // 1970-01-01 was a Thursday: Monday = 0
+            let weekday = (day + 3).rem_euclid(7);
+            (day - weekday) * 86400
+        }
+        Unit::Month => {
+            let ord0 = day - z.jan1_days;
+            (z.jan1_days + cum_days(z)[month0_of(z, ord0)]) * 86400
+        }
+        Unit::Year => z.jan1_days * 86400,
+        _ => l - l.rem_euclid(unit_secs(u)),
     }
 }
 
@@ -180,12 +226,36 @@ fn interval(u: Unit, n: i64) -> TimeTriggerInterval {
         Unit::Minute => TimeTriggerInterval::Minute(n),
         Unit::Hour => TimeTriggerInterval::Hour(n),
         Unit::Day => TimeTriggerInterval::Day(n),
+        Unit::Week => TimeTriggerInterval::Week(n),
+        Unit::Month => TimeTriggerInterval::Month(n),
+        Unit::Year => TimeTriggerInterval::Year(n),
     }
 }
 
 /// Expected local wall-clock second (seconds since the epoch read as local time) of the next
 /// roll, from the local wall-clock second `l` of now.  Pure integer arithmetic.
 fn expected_local(z: &Zone, l: i64, u: Unit, n: i64, modulate: bool) -> i64 {
+    match u {
+        Unit::Week => return start_of_unit(z, l, u) + n * 7 * 86400,
+        Unit::Month => {
+            let ord0 = l.div_euclid(86400) - z.jan1_days;
+            let m = month0_of(z, ord0) as i64 + n;
+            // callers keep m <= 12 (12 = January 1st of the next year)
+            return (z.jan1_days + cum_days(z)[m as usize]) * 86400;
+        }
+        Unit::Year => {
+            // lengths of the table year and the two following years
+            let lens: [i64; 3] = if z.jan1_days == 19723 { [366, 365, 365] } else { [365, 365, 366] };
+            let mut days = 0;
+            let mut k = 0;
+            while k < n {
+                days += lens[k as usize];
+                k += 1;
+            }
+            return (z.jan1_days + days) * 86400;
+        }
+        _ => {}
+    }
     let us = unit_secs(u);
     let start = l - l.rem_euclid(us);
     if !modulate {
@@ -200,6 +270,8 @@ fn expected_local(z: &Zone, l: i64, u: Unit, n: i64, modulate: bool) -> i64 {
             let day = l.div_euclid(86400);
             (z.jan1_days * 86400, day - z.jan1_days)
         }
+        // calendar units are handled above (plain only)
+        _ => (0, 0),
     };
     period_start + (idx / n + 1) * n * us
 }
@@ -233,11 +305,14 @@ pub fn body_next(z: Zone, u: Unit, modulate: bool, nsel: i64, window: Option<(i6
     // between the start of the current unit and the next boundary" (the two clauses of the
     // statement - "on a unit boundary in local time" and "exactly n units after the start of the
     // current unit" - only agree under that reading; see DESIGN.md, C16).
-    let us = unit_secs(u);
-    let start_utc = (l - l.rem_euclid(us)) - off_now;
+    let start_utc = start_of_unit(&z, l, u) - off_now;
     let crosses = |a: i64, b: i64| z.t1 != z.t2 && ((a < z.t1 && b >= z.t1) || (a < z.t2 && b >= z.t2));
     let no_change = !crosses(now, next_utc) && offset_at_utc(&z, start_utc) == off_now && !crosses(start_utc, now);
-    if no_change && next_utc < z.hi {
+    // the zone model is only valid up to z.hi, except that January 1st of a later year lies in the
+    // zone's "a" regime for every table zone (checked with the tz database by the native twin)
+    let in_model = next_utc < z.hi || u == Unit::Year;
+    let month_ok = u != Unit::Month || month0_of(&z, l.div_euclid(86400) - z.jan1_days) as i64 + n <= 12;
+    if no_change && in_model && month_ok {
         let exp = expected_local(&z, l, u, n, modulate);
         #[cfg(not(kani))]
         if next_utc + off_now != exp {
@@ -245,8 +320,9 @@ pub fn body_next(z: Zone, u: Unit, modulate: bool, nsel: i64, window: Option<(i6
         }
         assert!(next_utc + off_now == exp, "C16: next roll falls on the unit boundary in local time");
     }
-    let w1 = no_change && (!modulate || n > 1 || nsel == 1);
-    let w2 = if z.t1 != z.t2 { !no_change } else { next_utc - now == n * unit_secs(u) };
+    // for the Year unit in a zone with transitions the span always contains one: only reachability
+    let w1 = if u == Unit::Year && z.t1 != z.t2 { next_utc > now } else { no_change && (!modulate || n > 1 || nsel == 1) };
+    let w2 = if z.t1 != z.t2 { !no_change } else if unit_secs(u) > 0 { next_utc - now == n * unit_secs(u) } else { now == start_utc };
     cover!(w1, "boundary checked without an offset change in between (multiplier > 1 when modulated)");
     cover!(w2, "an offset change lies between the unit start and the next roll (DST zones) / now sits exactly on a boundary (fixed-offset zones)");
     if witness {
@@ -257,8 +333,7 @@ pub fn body_next(z: Zone, u: Unit, modulate: bool, nsel: i64, window: Option<(i6
 /// Input classes of the recorded findings (known_findings.json): local wall-clock times that are
 /// ambiguous or missing when truncated to the unit.
 fn exclude_known(z: &Zone, now: i64, l: i64, u: Unit) {
-    let us = unit_secs(u);
-    let start = l - l.rem_euclid(us);
+    let start = start_of_unit(z, l, u);
     // the truncated local time must map to exactly one instant
     let (kind, _, _) = local_kind(z, start);
     sym::assume(kind == 0);
@@ -349,6 +424,19 @@ time_common! {
     fn next_havana_day() { body_next(HAVANA, Unit::Day, false, 3, None, false, false) }
     #[kani::unwind(4)]
     fn next_saopaulo_day_mod() { body_next(SAO_PAULO, Unit::Day, true, 3, None, false, false) }
+    // calendar units, plain
+    #[kani::unwind(14)]
+    fn next_utc_week() { body_next(UTC0, Unit::Week, false, 3, None, false, false) }
+    #[kani::unwind(14)]
+    fn next_berlin_week() { body_next(BERLIN, Unit::Week, false, 3, None, false, false) }
+    #[kani::unwind(14)]
+    fn next_kolkata_month() { body_next(KOLKATA, Unit::Month, false, 3, None, false, false) }
+    #[kani::unwind(14)]
+    fn next_ny_month() { body_next(NEW_YORK, Unit::Month, false, 3, None, false, false) }
+    #[kani::unwind(14)]
+    fn next_utc_year() { body_next(UTC0, Unit::Year, false, 3, None, false, false) }
+    #[kani::unwind(14)]
+    fn next_saopaulo_year() { body_next(SAO_PAULO, Unit::Year, false, 3, None, false, false) }
     // fixed larger multipliers
     #[kani::unwind(4)]
     fn next_utc_second_mod_n7() { body_next(UTC0, Unit::Second, true, -7, None, false, false) }
